@@ -232,4 +232,34 @@ theorem fixed_F_C07_11_general (fx : Fixes) (path : Path) (syn : List Path) (src
     (src ≠ dst → (syncedUpdFx fx path syn (.rename src dst)).contains src = false) :=
   syncedUpdFx_rename fx path syn src dst hfx
 
+def fx10 : Fixes := { fsyncResolve := true }
+theorem witness_F_C07_10 : implAfterCrash {} hist10 b ≠ specAfterCrash {} hist10 b := by decide
+/-- F-C07-10 repaired: data fsynced through the new name of a renamed file survives the crash under
+    the (still durable) old name -/
+theorem fixed_F_C07_10 :
+    implAfterCrash fx10 hist10 b = specAfterCrash fx10 hist10 b ∧ implAfterCrash fx10 hist10 b = .file 1 [90] := by
+  decide
+/-- all six repairs together on every C07 canonical history they address -/
+def fxAll : Fixes :=
+  { readOrder := true, renameKind := true, childRenamedIn := true, createOverDir := true,
+    syncRenameBoth := true, fsyncResolve := true }
+theorem fixed_all_C07 :
+    implAfterCrash fxAll hist5 d = specAfterCrash fxAll hist5 d ∧
+    implAfterCrash fxAll hist7 d = specAfterCrash fxAll hist7 d ∧
+    implAfterCrash fxAll hist9 d = specAfterCrash fxAll hist9 d ∧
+    implAfterCrash fxAll hist10 b = specAfterCrash fxAll hist10 b ∧
+    implAfterCrash fxAll hist11 b = specAfterCrash fxAll hist11 b := by decide
+
+/-- F-C07-3: data written and fsynced through the new name of a renamed file is lost -/
+def hist3 : List Op :=
+  [.writeFile a [65, 66], .syncDir [], .rename a b, .open 0 b { w := true }, .writeAt 0 0 [88, 89], .syncAll 0,
+   .syncDir []]
+def fx3and10 : Fixes := { dataKeyResolve := true, fsyncResolve := true }
+theorem witness_F_C07_3 : implAfterCrash {} hist3 b ≠ specAfterCrash {} hist3 b := by decide
+/-- repaired by the F-3 and F-10 patches together (the write is keyed by the inode's name, the fsync
+    follows the pending rename to that name) -/
+theorem fixed_F_C07_3 :
+    implAfterCrash fx3and10 hist3 b = specAfterCrash fx3and10 hist3 b ∧
+    implAfterCrash fx3and10 hist3 b = .file 2 [88, 89] := by decide
+
 end TV.C07
